@@ -119,12 +119,12 @@ class Result:
         os.makedirs(EVIDENCE, exist_ok=True)
         with open(os.path.join(EVIDENCE, f'{self.prop}.json'), 'w') as f:
             json.dump(ev, f, indent=1, sort_keys=True)
-        if self.machinery_errors:
-            for m in self.machinery_errors:
-                print(f'MACHINERY-ERROR {self.prop}: {m}', file=sys.stderr, flush=True)
-            return 2
+        for m in self.machinery_errors:
+            print(f'MACHINERY-ERROR {self.prop}: {m}', file=sys.stderr, flush=True)
         if self.violations:
-            return 1
+            return 1            # a real execution broke the property: that stands
+        if self.machinery_errors:
+            return 2
         print(f'OK property={self.prop} tier={self.tier} '
               f'states={cov["states"]} traces={cov["traces_validated_against_impl"]} '
               f'nontrivial={cov["distinct_nontrivial"]} drift={len(self.drift)} '
